@@ -156,6 +156,18 @@ func (eng *Engine) initStubsHash() {
 			if pt, ok := under(nt.Field(0).Type()).(*types.Pointer); ok {
 				nc := new(Value)
 				*nc = e.zero(pt.Elem())
+				// a 4096-bit modulus like the services key's (Size() == 512): code
+				// that compares signature lengths with the key size behaves as it does
+				// natively. big.Int is {neg bool; abs nat}, nat a []Word.
+				if bi, ok := (*nc).(Struct); ok && len(bi) == 2 {
+					if bst, ok := under(pt.Elem()).(*types.Struct); ok {
+						if wt, ok := under(bst.Field(1).Type()).(*types.Slice); ok {
+							ao := e.newArr(64, wt.Elem(), true)
+							ao.cells[63] = e.tc.BV(1<<63, 64)
+							bi[1] = Slice{c: ao.cells, obj: ao}
+						}
+					}
+				}
 				st[0] = Ptr{cell: nc}
 			}
 		}
